@@ -100,9 +100,24 @@ class _Runner(_Processor):
                 await consumer.unpause()
             else:
                 await self._limiter.acquire()
+            if (
+                self.max_tasks
+                - self._tasks_processed
+                - (self._tasks_concurrency_limit - self._limiter._value)
+                < 0
+            ):
+                # messages limit is already used up by the tasks started so far:
+                # give the message back untouched and stop consuming
+                self._limiter.release()
+                await self._conn.message_broker.reject(key)
+                self.stop_consume_event.set()
+                return
             t = asyncio.create_task(self._process_with_event(actor, key, payload, params))
             self._tasks.add(t)
             t.add_done_callback(self._task_callback)
+            if self.max_tasks_hit:
+                self.stop_consume_event.set()
+                return
 
     async def run_one_queue(
         self,
